@@ -680,11 +680,22 @@ func (v *Verifier) VerifyFunc(key string) (res *FuncResult) {
 			}
 		}
 		if strings.HasPrefix(cl.Text, "consumes-wg ") {
-			e, err := ParseExpr(strings.TrimPrefix(cl.Text, "consumes-wg "))
+			wgText, subjText := splitConsumes(cl.Text)
+			e, err := ParseExpr(wgText)
 			if err != nil {
 				panic(unsupported{err.Error()})
 			}
 			r := x.refOf(v.syncRef(env, e))
+			if subjText != "" {
+				se, err := ParseExpr(subjText)
+				if err != nil {
+					panic(unsupported{err.Error()})
+				}
+				sv := v.eval(env, se)
+				st.TokenSubject = map[string]*Term{r.Key(): sv.Term}
+				pend := st.heapGet("G$mark$wgpending", ArrSort(SInt, ArrSort(SInt, SBool)))
+				st.Assume(Select(Select(pend, r), sv.Term))
+			}
 			mine := st.ghostArr("wgmine", SInt)
 			st.setGhostArr("wgmine", Store(mine, r, IntLit(1)))
 			st.Assume(Ge(Select(st.ghostArr("wg", SInt), r), IntLit(1)))
